@@ -698,7 +698,7 @@ class Prop:
             return None
         tj = scaled(case["t"], case.get("uscale"), case.get("xscale"))
         N = len(tj["modes"])
-        if N < 2 or N > 3 or max(max(np.array(m["core"]).shape) for m in tj["modes"]) > 3:
+        if N < 2 or N > 4 or max(max(np.array(m["core"]).shape) for m in tj["modes"]) > 4:
             return None
         if any(abs(float(v)) not in (0.0,) and (abs(float(v)) < 1e-4 or abs(float(v)) > 1e4) for m in tj["modes"] for v in flat(m["core"])):
             return None
